@@ -53,8 +53,10 @@ def classify_failure(h, res, prop, known):
         if kf:
             out.append(dict(key=k, kind="known", what=kf[0]["what"]))
             continue
-        if len([o for o in out if o["kind"] != "known"]) >= 4:
-            out.append(dict(key=k, kind="not-examined", detail="more than 4 distinct failing checks in one harness"))
+        cap = HARNESSES[h].get("max_examined", 4)
+        if len([o for o in out if o["kind"] != "known"]) >= cap:
+            # one reproduced counterexample per harness is enough to report; the rest is listed
+            out.append(dict(key=k, kind="also-failing", detail=f"not replayed (more than {cap} distinct failing checks in this harness)"))
             continue
         if not res.get("cbmc_cmd"):
             out.append(dict(key=k, kind="not-reproduced", detail="cbmc command line not captured"))
@@ -154,7 +156,7 @@ def main():
                     validation.append(dict(harness=h, seed=s, outcome=o))
                     break
             results[h]["native_validation_runs"] = okc
-    violations, known_hits, inconclusive = [], [], []
+    violations, known_hits, inconclusive, also_failing = [], [], [], []
     for h, r in results.items():
         if r["verdict"] == "PASS":
             continue
@@ -168,6 +170,8 @@ def main():
                 violations.append((h, [c["key"]], c["replay"]))
             elif c["kind"] == "ub":
                 inconclusive.append((h, "UB-BY-READING (CBMC memory-model failure not observable natively, needs triage): " + c["key"]))
+            elif c["kind"] == "also-failing":
+                also_failing.append((h, c["key"]))
             else:
                 inconclusive.append((h, f"counterexample {c['kind']}: {c['key']} {c.get('detail','')} {c.get('native','')}"))
     if smt is not None:
@@ -202,6 +206,10 @@ def main():
         if k not in seen:
             seen.add(k)
             print(f"KNOWN-FINDING: property={prop} {what} [{k}]")
+    # failing checks that were not replayed count only when nothing of that harness was reproduced
+    for h, k in also_failing:
+        if not any(v[0] == h for v in violations):
+            inconclusive.append((h, "failing check not replayed: " + k))
     for h, why in inconclusive:
         print(f"INCONCLUSIVE: property={prop} harness={h} {why}")
     for h, keys, rp in violations:
